@@ -337,10 +337,14 @@ def handleRaw (id : String) (src split auto target schema ctype payload hdrs mp 
   let obs : Obs :=
     { panicked := io.kind == "panic", ran := true, sendErr := false, dec := [], err := io.err, code := io.code, status := io.status }
   -- 422 is the documented outcome only for a body whose content type selects no decoder
-  let spec := specTotal auto (src == "body" && dispatch ctype == Codec.none) obs
+  -- inputs that cannot be bound must be refused (only where the pairs the binder sees are known:
+  -- not for the opaque body codecs, not when no decoder is selected)
+  let refuse := if opq || noCodec then none else mustFail specs s.brackets (target == "struct") pairs
+  let spec := specTotal auto (src == "body" && dispatch ctype == Codec.none) obs refuse
   let tags := [s!"raw-{src}", s!"to-{target}", if io.err then "err" else "ok"] ++
               (if opq then ["codec-opaque"] else []) ++ (if noCodec then ["no-codec"] else []) ++
               (if outside then ["outside-model"] else []) ++
+              (match refuse with | some c => [s!"must-{c}"] | none => []) ++
               (match mp with | .ok _ _ => ["multipart-parsed"] | .err => ["multipart-unreadable"] | .na => []) ++
               (if src == "body" then [s!"dispatch-{codec}"] else []) ++
               (if !payload.isEmpty || !hdrs.isEmpty then [s!"nt-raw-{src}"] else [])
